@@ -10,8 +10,8 @@ def T01():
     return Tree(
         "T01",
         [
-            Cfg("A", B, "a", defaults=[("y", None)]),
-            Cfg("B", B, "b", depends=["A"], defaults=[("y", "C"), ("n", None)]),
+            Cfg("A", B, "a", defaults=[("y", None)], help="First paragraph of help.\n\nSecond paragraph after one blank line.\n\n\nThird paragraph after two blank lines,\n  with an indented continuation line."),
+            Cfg("B", B, "b", depends=["A"], defaults=[("y", "C"), ("n", None)], help="config in help text\nmenu \"x\" is just text here"),
             Cfg("C", B, "c", prompt_if="A"),
             Cfg("D", B, "d", selects=[("E", "A")], implies=[("G", None)]),
             Cfg("E", B, "e", depends=["A || C"]),
@@ -149,7 +149,7 @@ def T07():
                     Cfg("M3", B, "m3", depends=["!HIDE || PREF"]),
                 ],
             ),
-            Cfg("AFTER", B, "after", depends=["M2"], defaults=[("y", None)]),
+            Cfg("AFTER", B, "after", depends=["M2"], defaults=[("y", None)], help="One line."),
             Cfg("CNT", I, "cnt", defaults=[("2", "M2"), ("3", "M3"), ("1", None)]),
         ],
     )
@@ -355,8 +355,9 @@ def T15():
             ),
             Choice("UC", "uc", defaults=[("UC2", "SHOW")], children=[Cfg("UC1", B, "uc1"), Cfg("UC2", B, "uc2")]),
             Cfg("LOCK", B, "lock", selects=[("LOCKED", None)], sets=[("PIN", "9", None)]),
-            Cfg("LOCKED", B, "locked"),
-            Cfg("PIN", I, "pin", defaults=[("1", None)]),
+            Cfg("LOCKED", B, "locked", extra=['warning "locked is risky"']),
+            Cfg("PIN", I, "pin", defaults=[("1", None)], extra=['warning "pin is risky"']),
+            Cfg("RISKY", B, "risky", prompt_if="SHOW", extra=['warning "risky"'], help="Help of risky."),
         ],
     )
 
